@@ -247,7 +247,9 @@ def chain(ctx, rule):
     from ..microeval import run_function
     sref = sm.func("should_follow_href")
     ctx.fn(sref.qualname)
-    for href, exp in (("", False), ("#top", False), ("  #top", False), ("/x", True), ("x.html", True), ("http://a.com", True), ("HTTPS://a.com", True), ("mailto:a@b.c", False), ("javascript:void(0)", False), ("ftp://a.com", False), ("//a.com/x", True), ("?q=1", True)):
+    for href, exp in (("", False), ("#top", False), ("  #top", False), ("/x", True), ("x.html", True), ("http://a.com", True), ("HTTPS://a.com", True), ("mailto:a@b.c", False), ("javascript:void(0)", False), ("ftp://a.com", False), ("//a.com/x", True), ("?q=1", True),
+                      # a scheme is followed only when it is http(s) written with its two slashes
+                      ("https:/a.com/x", False), ("http:a.com", False), ("https:", False), ("http:/", False), ("http:///a.com", True), ("  http://a.com/x ", True), ("x:y", False), ("a/b:c", False), ("httpx://a.com", False), ("http//a.com", True)):
         try:
             got = bool(run_function(repo, sref, [href]))
         except Unknown as e:
